@@ -14,7 +14,7 @@ RULE = ('sequences of complete file sections (kind x ending: modified/added/dele
 ASSUMPTIONS = ['each section is a complete file diff as git prints it (starts with its own "diff --git" line)']
 CHUNK = 4
 
-KINDS = gen.SECTION_KINDS + ['submodule_short', 'submodule_log']
+KINDS = gen.SECTION_KINDS + ['submodule_short', 'submodule_log', 'binary_noindex', 'combined_binary', 'combined']
 ENDINGS = [' ', '-', '+', '\\']
 
 MODES = {
@@ -60,6 +60,16 @@ def make_section_lines(rng, shape, idx):
     if kind == 'submodule_log':
         name = 'sublog%d' % idx
         return ['Submodule %s 1234567..89abcde:' % name, '  > commit message one', '  > commit message two']
+    if kind == 'binary_noindex':
+        # git diff --no-index of two differently named binary files: no repeated path on the diff line, no ---/+++ lines
+        return ['diff --git a/old%d/logo.png b/new%d/logo2.png' % (idx, idx), 'index 3333333..4444444 100644',
+                'Binary files a/old%d/logo.png and b/new%d/logo2.png differ' % (idx, idx)]
+    if kind == 'combined_binary':
+        return ['diff --cc assets%d/icon.png' % idx, 'index 5555555,6666666..7777777', 'Binary files differ']
+    if kind == 'combined':
+        ls, _m, _p = corpus.gen_combined(rng, conflict=rng.random() < 0.4)
+        ls = [l.replace(_p, 'cc%d/%s' % (idx, _p)) if l.startswith(('diff --cc', '--- ', '+++ ')) else l for l in ls]
+        return ls
     s = gen.gen_section(rng, kind, simple_paths=True, maxlines=6, maxlen=50)
     # distinct paths per position
     s.old_path = 'p%d/%s' % (idx, s.old_path)
